@@ -601,14 +601,17 @@ func (e *engine) eval() error {
 					}
 				}
 			}
+			// The facts derived in this round become the delta of the next round; they
+			// have to be in the store by then, so that a rule with several recursive
+			// subgoals can join two facts that were first derived in the same round.
+			e.deltaStore = newDeltaStore
+			e.temporalDeltaStore = newTemporalDeltaStore
 			if err := e.mergeDelta(); err != nil {
 				return err
 			}
 			if e.options.totalFactLimit > 0 && e.store.EstimateFactCount() > e.options.totalFactLimit {
 				return fmt.Errorf("fact size limit reached %d > %d", e.store.EstimateFactCount(), e.options.totalFactLimit)
 			}
-			e.deltaStore = newDeltaStore
-			e.temporalDeltaStore = newTemporalDeltaStore
 			if !incrementalFactAdded {
 				break
 			}
